@@ -132,4 +132,3 @@ func pathLen(matcher, p string) int {
 	}
 	return len(p)
 }
-
